@@ -15,14 +15,15 @@ TCopyF   == IsEvent("copyf")   /\ DCopyFaulty(E.vec, E.disk, E.srcSame)
 TFindM   == IsEvent("findmatch") /\ DFindMatch(E.vec, E.pairOk)
 TReset   == IsEvent("resetfailed") /\ DResetFailed(E.vec)
 TRound   == IsEvent("round")   /\ DRound(E.X, E.vec, E.disk, E.zero, E.payloadOk, E.wellFormed, E.complete, E.anyErr, E.outside, E.limit, E.nranges)
+TRoundF  == IsEvent("roundfault") /\ DRoundFault(E.firedErr, E.anyErr)
 TSetBase == IsEvent("setbase") /\ DSetBase(E.file)
 TSameBase == IsEvent("samebase") /\ DSameBase(E.file)
-TFinish  == IsEvent("finish")  /\ DFinish(E.valRet, E.eqB, E.sized)
+TFinish  == IsEvent("finish")  /\ DFinish(E.valRet, E.eqB, E.sized, E.must)
 TTool    == IsEvent("toolrun") /\ DToolRun(E.status, E.eqB, E.X, E.wholeChunks, E.disk, E.usable, E.sized, E.full, E.must)
 TCrash   == IsEvent("killed")  /\ DCrash
 
 Init == DInit /\ l = 1
-Next == TBegin \/ TStart \/ TScan \/ TScanF \/ TCopy \/ TCopyF \/ TFindM \/ TReset \/ TRound \/ TSetBase \/ TSameBase \/ TFinish \/ TTool \/ TCrash
+Next == TBegin \/ TStart \/ TScan \/ TScanF \/ TCopy \/ TCopyF \/ TFindM \/ TReset \/ TRound \/ TRoundF \/ TSetBase \/ TSameBase \/ TFinish \/ TTool \/ TCrash
 Spec == Init /\ [][Next]_tvars
 Accepted == /\ PrintT(<<"MATCHED", TLCGet("stats").diameter - 1, Len(TraceLog)>>)
             /\ TLCGet("stats").diameter - 1 = Len(TraceLog)
